@@ -30,9 +30,10 @@ type world struct {
 	mint  func(parent *block.Block, who int, com bool, txs []*tx.Transaction) *block.Block
 	late  int // length of the late branch that bft.Accepts has to refuse
 
-	facts map[thor.Bytes32]*bfact // read-only once the concurrent phase starts
-	order []thor.Bytes32          // genesis, then first-stored order of the reference run
-	ref   refResult
+	facts   map[thor.Bytes32]*bfact // read-only once the concurrent phase starts
+	order   []thor.Bytes32          // genesis, then first-stored order of the reference run
+	ref     refResult
+	refViol []violation // observed by the sequential probes of the reference run
 }
 
 type acctExp struct {
@@ -62,8 +63,8 @@ type refResult struct {
 	classes    map[thor.Bytes32]string // import outcome per stream block
 	quals      map[thor.Bytes32]uint32
 	everBest   map[thor.Bytes32]bool
-	finalities []thor.Bytes32 // successive finalized values
-	seq        []impEv        // Done / Skip events of the reference run, in order
+	finalities []thor.Bytes32          // successive finalized values
+	seq        []impEv                 // Done / Skip events of the reference run, in order
 	tally      map[thor.Bytes32]uint32 // bft quality of each block as the reference engine computed it
 }
 
